@@ -1243,7 +1243,7 @@ static void union_initializer(Token **rest, Token *tok, Initializer *init) {
 //             | struct-initializer | union-initializer
 //             | assign
 static void initializer2(Token **rest, Token *tok, Initializer *init) {
-  if (init->ty->kind == TY_ARRAY && tok->kind == TK_STR) {
+  if (init->ty->kind == TY_ARRAY && is_integer(init->ty->base) && tok->kind == TK_STR) {
     string_initializer(rest, tok, init);
     return;
   }
